@@ -33,3 +33,44 @@ Example C11_example :
   let x := Lst [Str []; Str [x7f]; Str [x80]; Lst [Str (repeat x01 56)]; Lst []] in
   fits x = true /\ decode_exact (encode x) = Some x.
 Proof. vm_compute. split; reflexivity. Qed.
+
+(* ---- typed layer: Go values of RLP-serialisable types (structs, tags, integers,
+   byte arrays, pointers, rlp:"nil", rlp:"tail") ---- *)
+From AQ Require Import Rlp.Typed Rlp.TypedProofs Rlp.TypedGen Generated.GenRlpTypes.
+
+Theorem C11_typed_roundtrip : forall t v x, wf t = true -> to_item t v = Some x -> fits x = true ->
+  dec_typed t (encode x) = Some v.
+Proof. exact typed_bytes_roundtrip. Qed.
+Print Assumptions C11_typed_roundtrip.
+
+Theorem C11_typed_canonical : forall t b v, wf t = true -> dec_typed t b = Some v -> enc_typed t v = Some b.
+Proof. exact typed_bytes_canonical. Qed.
+Print Assumptions C11_typed_canonical.
+
+Theorem C11_typed_one_encoding : forall t b1 b2 v, wf t = true ->
+  dec_typed t b1 = Some v -> dec_typed t b2 = Some v -> b1 = b2.
+Proof. exact typed_one_encoding. Qed.
+Print Assumptions C11_typed_one_encoding.
+
+(* every consensus / storage type descriptor regenerated from the source is in the
+   fragment the typed theorems cover (finite: the generated list) *)
+Theorem C11_generated_types_wf : forall name t, In (name, t) rlp_types -> wf t = true.
+Proof.
+  assert (H : all_wf = true) by (vm_compute; reflexivity).
+  intros name t Hin. unfold all_wf in H. rewrite forallb_forall in H. exact (H (name, t) Hin).
+Qed.
+Print Assumptions C11_generated_types_wf.
+
+Theorem C11_consensus_types_canonical : forall name t b v, In (name, t) rlp_types ->
+  dec_typed t b = Some v -> enc_typed t v = Some b.
+Proof. intros name t b v Hin. apply typed_bytes_canonical. exact (C11_generated_types_wf name t Hin). Qed.
+Print Assumptions C11_consensus_types_canonical.
+
+(* non-vacuity: a contract-creation transaction (nil recipient) round-trips through ty_Transaction;
+   and the wrong-kind empty recipient (0xC0) is rejected *)
+Example C11_typed_example :
+  let v := VList [VNum 1; VNum 4; VNum 3; VNil; VNum 2; VStr [x05]; VNum 0; VNum 0; VNum 0] in
+  option_map (fun b => dec_typed ty_Transaction b) (enc_typed ty_Transaction v) = Some (Some v)
+  /\ dec_typed ty_Transaction [xc9;x01;x04;x03;xc0;x02;x05;x80;x80;x80] = None
+  /\ enc_typed ty_Transaction v = Some [xc9;x01;x04;x03;x80;x02;x05;x80;x80;x80].
+Proof. vm_compute. repeat split; reflexivity. Qed.
